@@ -85,6 +85,19 @@ Proof.
   destruct (is_increasing RN (bsc r) && is_increasing RN (bsc l)); [|discriminate].
   destruct (crosses RN (bsc r) (bsc l)); [discriminate|]. intros A; inversion A; reflexivity.
 Qed.
+(* ordered bounds of any length whose normalised forms are sorted are accepted *)
+Lemma mk_ordered_any b (l r : list R) : ple l r -> Rsorted (bsc l) -> Rsorted (bsc r) -> mkg b l r = Ok (bsc l, bsc r).
+Proof.
+  intros Hle Sl Sr. unfold mk_staircase_gen.
+  assert (E : left_right_switch RN b l r = (l, r)).
+  { unfold left_right_switch. destruct b.
+    - destruct (lex_ge RN l r) eqn:G; [|reflexivity]. rewrite (lex_ge_true_le l r Hle G). reflexivity.
+    - destruct (all_ge RN l r) eqn:G; [|reflexivity].
+      assert (l = r) by (apply ple_antisym; auto; apply all_ge_true_ple; auto; apply ple_length; auto). subst; reflexivity. }
+  rewrite E. cbv zeta. cbn [T RN]. pose proof (bsc_length l) as Q1. pose proof (bsc_length r) as Q2. cbn [T RN] in Q1, Q2. rewrite Q1, Q2, Nat.eqb_refl. cbn [negb]. rewrite !is_increasing_sorted by assumption. cbn [andb].
+  assert (P : ple (bsc l) (bsc r)) by (rewrite !bsc_sel, <- (ple_length _ _ Hle); apply ple_sel; exact Hle).
+  rewrite (proj2 (crosses_false_ple (bsc l) (bsc r) ltac:(transitivity steps; [apply bsc_length|symmetry; apply bsc_length])) P). reflexivity.
+Qed.
 (* bounds that cross at some steps but not all are rejected *)
 Theorem mk_rejects_crossing b (l r : list R) : length l = steps -> length r = steps -> ~ ple l r -> ~ ple r l ->
   forall p, mkg b l r <> Ok p.
